@@ -191,9 +191,12 @@ func (e *c15Env) gen(t *rapid.T) C15Case {
 	}
 	full := append(append([]string{}, alphabet...), "ILLEGAL", "BEYOND")
 	mode := rapid.IntRange(0, 9).Draw(t, "mode")
-	_, y := e.d.Derive(t, rapid.IntRange(3, 12).Draw(t, "height"))
+	_, y := e.d.Derive(t, rapid.IntRange(3, 26).Draw(t, "height"))
 	if len(y) > 60 {
-		_, y = e.d.Derive(t, 6)
+		_, y = e.d.Derive(t, rapid.IntRange(6, 14).Draw(t, "height2"))
+		if len(y) > 60 {
+			_, y = e.d.Derive(t, 6)
+		}
 	}
 	toks := names(y)
 	switch {
@@ -277,6 +280,183 @@ func FuzzC15(f *testing.F) {
 		}
 		if m := e.eval(C15Case{Toks: toks}); m != "" {
 			t.Fatal(m)
+		}
+	})
+}
+
+// ---------------------------------------------------------------------------
+// Systematic part: every entry of the *reference* canonical LR(1) automaton of
+// the spec grammar is aimed at — a shortest path of grammar symbols to the
+// state, the terminal of the entry, then a completion to a sentence guided by
+// Earley's expected sets. One flipped entry in the shipped tables is exactly
+// the kind of drift this reaches.
+
+type lrEntry struct{ state, term int }
+
+type c15Sys struct {
+	e       *c15Env
+	lr      *cfg.LR1
+	entries []lrEntry
+	prefix  map[int][]int // state -> terminal string leading to it
+}
+
+func newC15Sys(e *c15Env) (*c15Sys, error) {
+	lr, err := cfg.BuildLR1(e.sp.C)
+	if err != nil {
+		return nil, err
+	}
+	s := &c15Sys{e: e, lr: lr, prefix: map[int][]int{0: {}}}
+	// BFS over goto edges; nonterminal edges are expanded by minimal yields
+	type back struct{ from, sym int }
+	prev := map[int]back{}
+	queue := []int{0}
+	seen := map[int]bool{0: true}
+	for len(queue) > 0 {
+		st := queue[0]
+		queue = queue[1:]
+		var syms []int
+		for sym := range lr.States[st].Goto {
+			syms = append(syms, sym)
+		}
+		sortInts(syms)
+		for _, sym := range syms {
+			n := lr.States[st].Goto[sym]
+			if !seen[n] {
+				seen[n] = true
+				prev[n] = back{st, sym}
+				queue = append(queue, n)
+			}
+		}
+	}
+	full := cfg.NewDeriver(e.sp.C, false)
+	for st := range lr.States {
+		if st == 0 || !seen[st] {
+			continue
+		}
+		var path []int
+		for x := st; x != 0; x = prev[x].from {
+			path = append([]int{prev[x].sym}, path...)
+		}
+		var toks []int
+		ok := true
+		for _, sym := range path {
+			if e.sp.C.IsTerm(sym) {
+				toks = append(toks, sym)
+			} else if y, o := full.MinYield(e.sp.C.NTIndex(sym)); o {
+				toks = append(toks, y...)
+			} else {
+				ok = false
+			}
+		}
+		if ok {
+			s.prefix[st] = toks
+		}
+	}
+	for st := range lr.States {
+		if _, ok := s.prefix[st]; !ok {
+			continue
+		}
+		var ts []int
+		for t := range lr.States[st].Acts {
+			ts = append(ts, t)
+		}
+		sortInts(ts)
+		for _, t := range ts {
+			s.entries = append(s.entries, lrEntry{st, t})
+		}
+	}
+	return s, nil
+}
+
+func sortInts(a []int) {
+	for i := 1; i < len(a); i++ {
+		for j := i; j > 0 && a[j] < a[j-1]; j-- {
+			a[j], a[j-1] = a[j-1], a[j]
+		}
+	}
+}
+
+// gen draws an entry and a sentence through it.
+func (s *c15Sys) gen(t *rapid.T) (C15Case, lrEntry) {
+	en := s.entries[rapid.IntRange(0, len(s.entries)-1).Draw(t, "entry")]
+	c := s.e.sp.C
+	w := append([]int{}, s.prefix[en.state]...)
+	if en.term != cfg.EOF {
+		w = append(w, en.term)
+	}
+	// completion guided by Earley's expected sets
+	for len(w) < 70 {
+		exp, ok := s.e.sp.E.Expected(w)
+		if !ok {
+			break
+		}
+		var cand []int
+		for x := range exp {
+			if x != cfg.EOF {
+				cand = append(cand, x)
+			}
+		}
+		sortInts(cand)
+		if exp[cfg.EOF] && (len(cand) == 0 || rapid.IntRange(0, 2).Draw(t, "stop") != 0) {
+			break
+		}
+		if len(cand) == 0 {
+			break
+		}
+		// prefer terminals that close something when the sentence gets long
+		pick := cand[rapid.IntRange(0, len(cand)-1).Draw(t, "next")]
+		if len(w) > 30 {
+			for _, x := range cand {
+				switch c.Terms[x] {
+				case ";", "]", "}", ")":
+					pick = x
+				}
+			}
+		}
+		w = append(w, pick)
+	}
+	names := make([]string, len(w))
+	for i, x := range w {
+		names[i] = c.Terms[x]
+	}
+	// one in four: damage the sentence right after the entry's terminal
+	if rapid.IntRange(0, 3).Draw(t, "damage") == 0 && len(names) > 0 {
+		i := rapid.IntRange(0, len(names)-1).Draw(t, "at")
+		full := append(append([]string{}, alphabet...), "ILLEGAL")
+		names[i] = rapid.SampledFrom(full).Draw(t, "bad")
+	}
+	return C15Case{Toks: names}, en
+}
+
+// TestC15Entries: the systematic sweep.
+func TestC15Entries(t *testing.T) {
+	e := newC15Env(t)
+	e.col = ev.New("C15")
+	sys, err := newC15Sys(e)
+	if err != nil {
+		t.Fatalf("INFRA: %v", err)
+	}
+	rec := &ev.Recorder{Dir: os.Getenv("VERIF_REPLAY_OUT"), Prop: "C15", Engine: "inproc", Seed: os.Getenv("VERIF_SEED")}
+	covered := map[lrEntry]bool{}
+	defer func() {
+		rec.Flush(e.col)
+		e.col.ClassN("reference_lr1_entries_total_x_shards", len(sys.entries))
+		e.col.ClassN("reference_lr1_entries_aimed_at_summed_over_shards", len(covered))
+		e.col.ClassN("reference_lr1_states_x_shards", len(sys.lr.States))
+		if p := os.Getenv("VERIF_STATS"); p != "" {
+			e.col.Write(p)
+		}
+	}()
+	if os.Getenv("VERIF_REPLAY") != "" {
+		return // replays are evaluated by TestC15
+	}
+	rapid.Check(t, func(rt *rapid.T) {
+		c, en := sys.gen(rt)
+		covered[en] = true
+		if m := e.eval(c); m != "" {
+			cb, _ := json.Marshal(c)
+			rec.Record(cb, m)
+			rt.Fatalf("%s", m)
 		}
 	})
 }
